@@ -68,8 +68,10 @@ def ref_build(p, k: N, brk: Optional[N], cont: Optional[N]) -> N:
     if kind == "ret":
         tail = N(sym="return_", terminal=True)
         return ref_build(p[1], tail, brk, cont) if p[1] is not None else tail
-    if kind == "assert":
+    if kind in ("assert", "assertc"):
         return ref_build(p[1], N(sym="assert_", next=k), brk, cont)
+    if kind == "commented":
+        return ref_build(p[1], k, brk, cont)
     if kind == "pop":
         return ref_build(p[1], N(sym="pop", next=k), brk, cont)
     raise AnalysisError(f"reference: unknown statement {p!r}")
@@ -103,7 +105,7 @@ def ref_traces(entry: N, L: int, cap: int = 200000):
 
 
 # ------------------------------------------------------------------------------------------ lowered graph
-def low_traces(start: Sym, L: int, cap: int = 200000):
+def low_traces(start: Sym, L: int, cap: int = 200000, keep_comments: bool = False):
     out, stack, steps = set(), [(start, ())], 0
     while stack:
         b, seq = stack.pop()
@@ -114,6 +116,10 @@ def low_traces(start: Sym, L: int, cap: int = 200000):
             done = False
             for o in b.attrs["ops"]:
                 sym = o.args[0] if isinstance(o, OpVal) and o.op in ("$push", "$effect") else (o.op if isinstance(o, OpVal) else repr(o))
+                if sym == "comment":
+                    if not keep_comments:
+                        continue  # not executed
+                    sym = "comment " + " ".join(map(str, o.args))
                 seq = seq + (sym,)
                 if sym in ("return_", "retsub", "err"):
                     done = True
@@ -183,6 +189,10 @@ class Builder:
             return W.construct("Return", [self.mk(p[1])] if p[1] is not None else [])
         if kind == "assert":
             return W.construct("Assert", [self.mk(p[1])])
+        if kind == "assertc":
+            return W.construct("Assert", [self.mk(p[1])], {"comment": p[2]})
+        if kind == "commented":
+            return W.call("Comment", [p[2], self.mk(p[1])])
         if kind == "pop":
             return W.call("Pop", [self.mk(p[1])])
         raise AnalysisError(f"unknown statement {p!r}")
@@ -219,6 +229,10 @@ def show(p) -> str:
         return f"Return({show(p[1]) if p[1] is not None else ''})"
     if k in ("assert", "pop"):
         return f"{k.capitalize()}({show(p[1])})"
+    if k == "assertc":
+        return f"Assert({show(p[1])}, comment={p[2]!r})"
+    if k == "commented":
+        return f"Comment({p[2]!r}, {show(p[1])})"
     return k.capitalize() + "()"
 
 
@@ -249,6 +263,8 @@ def programs(tier: str):
         out.append(("while", V(1), ("seq", [("while", V(2), ("if", V(3), a, None)), ("if", V(4), b, None), E(1)])))
         out.append(("for", E(0), V(1), E(8), ("seq", [("while", V(2), ("seq", [E(2), ("if", V(3), a, None)])), ("if", V(4), b, None), E(1)])))
         out.append(("while", V(1), ("seq", [("for", E(0), V(2), E(8), ("if", V(3), a, E(5))), ("if", V(4), b, None)])))
+    # annotations
+    out += [("seq", [("assertc", V(1), "must hold"), E(1)]), ("seq", [("assertc", V(1), "two\nlines"), ("assertc", V(2), "again")]), ("seq", [("commented", E(1), "note"), E(2)]), ("while", V(1), ("seq", [("assertc", V(2), "in loop"), E(1)]))]
     # Cond
     out += [("cond", [(V(1), E(1))]), ("cond", [(V(1), E(1)), (V(2), E(2))]), ("cond", [(V(1), E(1)), (V(2), E(2)), (V(3), E(3))]), ("seq", [("cond", [(V(1), E(1)), (V(2), RET)]), E(9)])]
     out += [("while", V(1), ("cond", [(V(2), BR), (V(3), CO), (V(4), E(1))])), ("cond", [(V(1), ("if", V(5), E(1), E(2))), (V(2), ("while", V(6), E(3)))])]
@@ -334,6 +350,9 @@ def flat_low_traces(code: list, L: int, cap: int = 200000):
                     pc, seq = pc + 1, seq + ("T",)
                 continue
             sym = c.args[0] if c.op in ("$push", "$effect") else c.op
+            if sym == "comment":
+                pc += 1
+                continue
             seq = seq + (sym,)
             if sym in ("return_", "retsub", "err"):
                 out.add(seq[:L])
@@ -652,3 +671,23 @@ def r04_9_whole_program(ctx):
 import ast as _ast  # noqa: E402
 
 ast_Call = _ast.Call
+
+
+def r15_7_relowering(ctx):
+    ctx.rule("R15.7", "lowering an expression does not change it: the same construct object lowered a second time (what a source-map build does for its identity check, and what any second compilation of a reused tree does) yields the same code - op for op, comment ops included - for every program of the construct family, Assert with a comment among them")
+    L = 22
+    n = 0
+    for p in programs(ctx.tier):
+        B = Builder(ctx, "list")
+        construct = f"relower[{show(p)}]"
+        try:
+            obj = B.mk(p)
+            first = low_traces(B.lower(obj)[0], L, keep_comments=True)
+            B.options.attrs["breakBlocksStack"], B.options.attrs["continueBlocksStack"] = [], []
+            second = low_traces(B.lower(obj)[0], L, keep_comments=True)
+        except Raised as r:
+            ctx.bad("R15.7", construct, f"the second lowering of the same object dies: {r.exc_text[:80]}", "pyteal/ast")
+            continue
+        n += 1
+        ctx.check(first == second, "R15.7", construct, f"the second lowering differs: only first {sorted(first - second)[:1]}, only second {sorted(second - first)[:1]}", "pyteal/ast", fact={"executions": len(first)})
+    ctx.require_min("R15.7", 50)
